@@ -55,7 +55,7 @@ pub struct Flow<B, State> {
 #[derive(Debug)]
 pub(crate) struct Inner<B> {
     pub call: CallHolder<B>,
-    pub close_reason: ArrayVec<CloseReason, 4>,
+    pub close_reason: ArrayVec<CloseReason, 5>,
     pub should_send_body: bool,
     pub await_100_continue: bool,
     pub status: Option<StatusCode>,
@@ -101,6 +101,13 @@ pub enum CloseReason {
     /// We do not know how much body data to receive. The socket will be closed
     /// when it's done. This is HTTP/1.0 semantics.
     CloseDelimitedBody,
+}
+
+/// Record a reason to close the connection, each reason at most once.
+fn add_close_reason(reasons: &mut ArrayVec<CloseReason, 5>, reason: CloseReason) {
+    if !reasons.contains(&reason) {
+        reasons.push(reason);
+    }
 }
 
 impl CloseReason {
@@ -390,7 +397,7 @@ impl<B> Flow<B, Await100> {
                         // so we should not continue to send the body. Furthermore we mustn't
                         // reuse the connection.
                         // https://curl.se/mail/lib-2004-08/0002.html
-                        self.inner.close_reason.push(CloseReason::Not100Continue);
+                        add_close_reason(&mut self.inner.close_reason, CloseReason::Not100Continue);
                         self.inner.should_send_body = false;
                         Ok(0)
                     }
@@ -409,7 +416,7 @@ impl<B> Flow<B, Await100> {
                     //
                     // We do however want to receive the response to be able to provide
                     // the Response<()> to the user. Hence this is not considered an error.
-                    self.inner.close_reason.push(CloseReason::Not100Continue);
+                    add_close_reason(&mut self.inner.close_reason, CloseReason::Not100Continue);
                     self.inner.should_send_body = false;
                     Ok(0)
                 } else {
@@ -599,9 +606,10 @@ impl<B> Flow<B, RecvResponse> {
             .cloned();
 
         if response.headers().iter().has("connection", "close") {
-            self.inner
-                .close_reason
-                .push(CloseReason::ServerConnectionClose);
+            add_close_reason(
+                &mut self.inner.close_reason,
+                CloseReason::ServerConnectionClose,
+            );
         }
 
         Ok((input_used, Some(response)))
@@ -631,9 +639,10 @@ impl<B> Flow<B, RecvResponse> {
 
         if has_response_body {
             if call_body.is_close_delimited() {
-                self.inner
-                    .close_reason
-                    .push(CloseReason::CloseDelimitedBody);
+                add_close_reason(
+                    &mut self.inner.close_reason,
+                    CloseReason::CloseDelimitedBody,
+                );
             }
 
             self.inner.call = CallHolder::RecvBody(call_body);
